@@ -34,6 +34,8 @@ def merged(prop, seq_kwargs, scns):
     cov["samples"] = cov1["samples"] + cov2["samples"]
     cov["sequential"] = {k: cov1[k] for k in ("events_by_kind", "accepted", "rejected", "generator_constants", "tags_of_other_properties", "bounded_model")}
     cov["concurrent"] = {k: cov2[k] for k in ("scenarios", "exhaustive", "rejected_executions", "rejected_signatures", "rule")}
+    cov["layer2_model"] = cov2["layer2_model"]
+    cov["layer2_conformance"] = cov2["layer2_conformance"]
     cov["known_findings_seen"] = cov1["known_findings_seen"] + cov2["known_findings_seen"]
     cov["exhaustive"] = False
     write_evidence(prop, "model_checking", cov, time.time() - t0, v1 + v2, ASSUME)
